@@ -55,13 +55,15 @@ func (r *Router) route(s Sender, p stanza.Packet) {
 	}
 	iq, isIq := p.(*stanza.IQ)
 	if isIq {
-		r.IQResultRouteLock.RLock()
+		// Look the pending request up and remove it in one critical section: of several
+		// responses with the same id only one can find it, and so only one is delivered.
+		r.IQResultRouteLock.Lock()
 		route, ok := r.IQResultRoutes[iq.Id]
-		r.IQResultRouteLock.RUnlock()
 		if ok {
-			r.IQResultRouteLock.Lock()
 			delete(r.IQResultRoutes, iq.Id)
-			r.IQResultRouteLock.Unlock()
+		}
+		r.IQResultRouteLock.Unlock()
+		if ok {
 			route.result <- *iq
 			close(route.result)
 			return
